@@ -17,16 +17,24 @@ POSITIONS = {
     "while_cond": "while {E}:\n{I}    break", "for_iter": "for k in {E}:\n{I}    pass", "binop_left": "v = {E} + 1", "binop_right": "v = 1 + {E}",
     "unary_minus": "v = -{E}", "unary_not": "v = not {E}", "compare": "v = {E} < 3", "boolop": "v = {E} and 1", "subscript_object": "v = {E}[0]",
     "subscript_index": "v = [1][{E}]", "subscript_target": "{A}[0] = 1", "with_item": "with {E}:\n{I}    pass", "with_item_as": "with {E} as fh:\n{I}    pass",
-    "fstring": "v = f\"{{{E}}}\"", "else_body": "if v:\n{I}    pass\n{I}else:\n{I}    w = {E}", "except_body": "try:\n{I}    pass\n{I}except Exception:\n{I}    w = {E}",
+    "fstring": "v = f\"{{E}}\"", "fstring_spec": "v = f\"x {{E}!r:>10} y\"", "fstring_nested": "v = f\"{v:{{E}}}\"", "else_body": "if v:\n{I}    pass\n{I}else:\n{I}    w = {E}", "except_body": "try:\n{I}    pass\n{I}except Exception:\n{I}    w = {E}",
     "finally_body": "try:\n{I}    pass\n{I}finally:\n{I}    w = {E}", "try_body": "try:\n{I}    w = {E}\n{I}except Exception:\n{I}    pass",
-    "loop_else": "for k in v:\n{I}    pass\n{I}else:\n{I}    w = {E}", "list_literal": "v = [{E}]", "dict_value": "v = {{1: {E}}}", "tuple": "v = ({E}, 1)",
+    "loop_else": "for k in v:\n{I}    pass\n{I}else:\n{I}    w = {E}", "list_literal": "v = [{E}]", "dict_value": "v = {1: {E}}", "tuple": "v = ({E}, 1)",
     "lambda_body": "v = lambda: {E}", "comp_element": "v = [{E} for k in v]", "comp_iter": "v = [k for k in {E}]", "comp_cond": "v = [k for k in v if {E}]",
     "ifexp": "v = {E} if v else 0", "assert": "assert {E}", "del": "del {A}", "raise": "raise ValueError({E})", "nested_def": "def inner():\n{I}    return {E}",
     "walrus": "if (w := {E}):\n{I}    pass", "starred": "print(*{E})", "attr_chain": "v = {E}.real.imag", "yield": "yield {E}", "await": "v = await {E}",
     "match_subject": "match {E}:\n{I}    case 1:\n{I}        pass", "case_body": "match v:\n{I}    case 1:\n{I}        w = {E}", "annotated": "w: int = {E}",
+    "selfcall_arg": "v = self.sink({E})", "selfcall_kwarg": "v = self.sink(k={E})", "selfcall_arg2": "self.sink(1, {E})", "selfattr_call_arg": "self.items.append({E})",
+    "nested_call_arg": "print(len({E}))", "method_chain": "v = {E}.strip().lower()", "dict_key": "v = {{E}: 1}", "set_literal": "v = {{E}, 2}",
+    "nested_def_default": "def inner(q={E}):\n{I}    return q", "comp_nested": "v = [[{E} for k in v] for j in v]", "ifexp_cond": "v = 1 if {E} else 0",
+    "compare_right": "v = 3 < {E}", "boolop_right": "v = 1 and {E}", "call_kw_in_return": "return dict(a={E})", "dictcomp_value": "v = {k: {E} for k in v}",
+    "genexp_arg": "print(sum({E} for k in v))", "call_on_call": "v = {E}.get(1)(2)", "starstar": "print(**{E})", "selfcall_in_selfcall_attr": "v = self.sink({E}).real",
     "return_tuple": "return 1, {E}", "slice": "v = v[{E}:]", "call_func_attr": "v = {E}.append(1)", "global_stmt_after": "v = 0\n{I}w = {E}",
 }
 ASYNC_ONLY = {"await"}
+# expression wrappers applied at random around a load-context mention (nesting of expression forms)
+WRAPS = ["self.sink({E})", "self.sink(k={E})", "len({E})", "({E}, 1)", "[{E}]", "{E}.real", "-{E}", "not {E}", "({E} + 1)", "self.items.get({E})", "(lambda: {E})()",
+         "({E} if v else 0)", "str({E}).strip()", "{1: {E}}", "v[{E}]", "f\"{{E}}\"", "self.sink(self.sink({E}))", "print(end={E})"]
 
 
 def method_src(name, stmts, deco=None, is_async=False, first="self"):
@@ -59,6 +67,12 @@ def gen_class(rng, idx, positions=None):
             else:
                 a = rng.choice(attrs)
                 expr, attr = "self.%s" % a, "self.%s" % a
+            if pos not in ("assign_target", "augassign", "del", "subscript_target", "fstring", "fstring_spec", "fstring_nested"):
+                while rng.random() < 0.35:
+                    w = rng.choice(WRAPS)
+                    if '"' in w and '"' in expr:
+                        continue
+                    expr = w.replace("{E}", expr)
             stmts.append((pos, expr, attr))
         is_async = any(p in ASYNC_ONLY for p, _, _ in stmts) or rng.random() < 0.1
         deco = rng.choice([None, None, None, None, "staticmethod", "classmethod", "property", "functools.wraps(print)"])
